@@ -447,9 +447,10 @@ fn job_wide<T: IntDom>(run: &Run, seed: u64, sub: u64, n_random: u64) {
     for i in 0..n_random {
         let n = gen_wide(&mut r, T::MIN, T::MAX);
         check_int_offer::<T>(run, &mut acc, n);
-        // random cases are distinct cases in their own right
-        acc.nontrivial(rng::hash_str(&format!("{}|i{}", T::NAME, n)));
         if i % 4 == 0 {
+            // a quarter of the random cases is recorded as distinct cases in their own right
+            // (all of them would only grow the evidence set, not the coverage)
+            acc.nontrivial(rng::hash_str(&format!("{}|i{}", T::NAME, n)));
             let f = n as f64;
             if f as i128 == n {
                 check_float_to_int::<T>(run, &mut acc, f);
@@ -1024,9 +1025,9 @@ pub fn main() {
     let seed = run.seed;
     // random volume per wide type / per float job / per text job, split into sub-jobs
     let subs = run.scale(2, 16);
-    let per_sub_wide = run.scale(40_000, 1_500_000);
-    let per_sub_float = run.scale(60_000, 2_500_000);
-    let per_sub_text = run.scale(30_000, 1_000_000);
+    let per_sub_wide = run.scale(40_000, 400_000);
+    let per_sub_float = run.scale(60_000, 300_000);
+    let per_sub_text = run.scale(30_000, 150_000);
 
     let runr = &run;
     let small_done = AtomicU64::new(0);
